@@ -55,7 +55,7 @@ def _walk(meth, callee, lst, reverse):
     post_order = ("forall(lambda j: implies(0 <= j and j < len({l}), ct_is(j, '{c}', oldlist({l})[{idx}])))"
                   .format(l=lst, c=callee, idx=("len(%s) - 1 - j" % lst) if reverse else "j"))
     contract(FF, "Framer." + meth, "C06", params={"self": Ref("Framer"), lst: LF},
-             requires=[OWN.format(l=lst)],
+             assumes=[OWN.format(l=lst)],
              modifies=[lst + "[*]", OTHER_FRAMERS_SELF],
              loops={0: dict(inv=inv)},
              ensures=["is_reverse(%s, oldlist(%s))" % (lst, lst) if reverse else "seq_eq(%s, oldlist(%s))" % (lst, lst)]
@@ -63,7 +63,7 @@ def _walk(meth, callee, lst, reverse):
              local_ensures=["ct_len() == len(%s)" % lst, post_order])
 
 
-OTHER_FRAMERS_SELF = havoc_all_but(FRAMER_RUN_FIELDS, keep=["self"])
+OTHER_FRAMERS_SELF = havoc_all_but(FRAMER_RUN_FIELDS, keep=["self"], wf=[ACTIVES_OWNED])
 KEEP_SELF = ["self.actives is old(self.actives) and self.active is old(self.active) and self.done == old(self.done)"
              " and self.elapsed == old(self.elapsed) and self.recurred == old(self.recurred) "
              "and self.stamp == old(self.stamp)"]
@@ -81,7 +81,7 @@ _walk("rexit", "Frame.rexit", "rexits", True)
 _walk("renter", "Frame.renter", "renters", False)
 
 contract(FF, "Framer.enter", "C06,C11", params=dict(self=Ref("Framer"), enters=LF),
-         requires=[OWN.format(l="enters")],
+         assumes=[OWN.format(l="enters")],
          modifies=[OTHER_FRAMERS_SELF, "self.stamp", "self.elapsed", "self.recurred", "self.elapsedShr.value",
                    "self.recurredShr.value"],
          loops={0: dict(inv=["ct_len() == _i + (2 if len(enters) > 0 else 0)",
@@ -128,7 +128,7 @@ contract(FF, "Framer.deactivate", "C05,C06", params=dict(self=Ref("Framer")),
          ensures=["len(self.actives) == 0", "self.active is None", "self.human == ''", "fresh(self.actives)"])
 
 contract(FF, "Framer.exitAll", "C05,C06,C03", params=dict(self=Ref("Framer"), abort=BOOL),
-         requires=[OWN.format(l="self.actives")],
+         assumes=[OWN.format(l="self.actives")],
          modifies=[OTHER_FRAMERS_SELF, "self.active", "self.actives", "self.human", "self.done"],
          ensures=["len(self.actives) == 0", "self.active is None",
                   "self.done == (old(self.done) if abort else True)",
@@ -140,7 +140,8 @@ contract(FF, "Framer.exitAll", "C05,C06,C03", params=dict(self=Ref("Framer"), ab
                         "fresh(ct_arg_list(0, Ref('Frame')))"])
 
 contract(FF, "Framer.enterAll", "C05,C06", params=dict(self=Ref("Framer")),
-         requires=["self.first is not None", "self.humanShr is not self.activeShr", OWN.format(l="self.first.outline")],
+         requires=["self.first is not None", "self.humanShr is not self.activeShr"],
+         assumes=[OWN.format(l="self.first.outline")],
          modifies=[OTHER_FRAMERS_SELF, "self.done", "self.active", "self.actives", "self.human",
                    "self.humanShr.value", "self.activeShr.value", "self.stamp", "self.elapsed", "self.recurred",
                    "self.elapsedShr.value", "self.recurredShr.value"],
@@ -151,10 +152,7 @@ contract(FF, "Framer.enterAll", "C05,C06", params=dict(self=Ref("Framer")),
 # ---------------------------------------------------------------- Transiter.action (C06 order, C08 refusal)
 classdecl("Transiter", file=FA, fields=dict(_tracts=List(Ref("Act")), name=STR))
 
-contract(FF, "Framer.checkEnter", "C06,C08", params=dict(self=Ref("Framer"), enters=LF, exits=LF),
-         modifies=[OTHER_FRAMERS_SELF], returns=BOOL, verify=False, may_raise_at_call=False,
-         ensures=["implies(len(enters) == 0, not result)"] + KEEP_SELF,
-         note="call-site view (needs/benter acts and auxiliary checkStart are opaque); body verified in C08")
+from contracts import c08_guards   # Framer.checkEnter / Frame.checkEnter contracts
 
 FR = "near.framer"
 TR_CODES = "(code('Framer.exit'), code('Framer.rexit'), code('Framer.renter'), code('Framer.enter'), " \
@@ -167,9 +165,9 @@ OWN_FR = "forall(lambda j: implies(0 <= j and j < len({l}), {l}[j].framer is nea
 
 contract(FA, "Transiter.action", "C06,C08",
          params=dict(self=Ref("Transiter"), needs=List(Ref("Act")), near=Ref("Frame"), far=Ref("Frame"), human=STR),
-         requires=[OWN_FR.format(l=FR + ".actives"), OWN_FR.format(l="far.outline"),
-                   FR + ".humanShr is not " + FR + ".activeShr"],
-         modifies=[havoc_all_but(FRAMER_RUN_FIELDS, keep=[FR]),
+         requires=[FR + ".humanShr is not " + FR + ".activeShr"],
+         assumes=[OWN_FR.format(l=FR + ".actives"), OWN_FR.format(l="far.outline"), c08_guards.AUX_WF],
+         modifies=[havoc_all_but(FRAMER_RUN_FIELDS, keep=[FR], wf=[ACTIVES_OWNED]),
                    FR + ".active", FR + ".actives", FR + ".human", FR + ".humanShr.value", FR + ".activeShr.value",
                    FR + ".stamp", FR + ".elapsed", FR + ".recurred", FR + ".elapsedShr.value",
                    FR + ".recurredShr.value"],
